@@ -907,3 +907,147 @@ pub fn conservative(body: &[u8], out: &[u8], inserts: &[Vec<u8>], replaces: &[Ve
 pub fn hexs(v: &[u8]) -> String {
     hex(v)
 }
+
+// ------------------------------------------------------------------------------------------------
+// codecs (C14, and the compressed cases of C04): producer, independent decoder, flush points
+// ------------------------------------------------------------------------------------------------
+
+pub const ENCODINGS: &[&str] = &["gzip", "deflate", "br"];
+
+/// Producer of the compressed body.  `level`: 0..=9 for gzip/deflate, 0..=11 for br; `window`: lgwin 10..=24 (br only);
+/// `pflush`: positions of the plain body after which the producer issues a sync flush (several deflate blocks /
+/// brotli meta-blocks in the stream).
+pub fn compress(enc: &str, level: u32, window: u32, pflush: &[usize], body: &[u8]) -> Option<Vec<u8>> {
+    use std::io::Write;
+    let mut cuts: Vec<usize> = pflush.iter().cloned().filter(|p| *p <= body.len()).collect();
+    cuts.sort();
+    let parts = split_at_cuts(body, &cuts);
+    match enc {
+        "gzip" => {
+            let mut e = flate2::write::GzEncoder::new(Vec::new(), flate2::Compression::new(level.min(9)));
+            for (i, p) in parts.iter().enumerate() {
+                e.write_all(p).ok()?;
+                if i + 1 < parts.len() {
+                    e.flush().ok()?;
+                }
+            }
+            e.finish().ok()
+        }
+        "deflate" => {
+            let mut e = flate2::write::ZlibEncoder::new(Vec::new(), flate2::Compression::new(level.min(9)));
+            for (i, p) in parts.iter().enumerate() {
+                e.write_all(p).ok()?;
+                if i + 1 < parts.len() {
+                    e.flush().ok()?;
+                }
+            }
+            e.finish().ok()
+        }
+        "br" => {
+            let mut e = brotli::CompressorWriter::new(Vec::new(), 4096, level.min(11), window.clamp(10, 24));
+            for (i, p) in parts.iter().enumerate() {
+                e.write_all(p).ok()?;
+                if i + 1 < parts.len() {
+                    e.flush().ok()?;
+                }
+            }
+            Some(e.into_inner())
+        }
+        _ => None,
+    }
+}
+
+/// Independent decoder (the *read* side of the crates; the code under test uses the write side).
+/// None = not a complete valid stream of that encoding (or trailing garbage).
+pub fn decode_independent(enc: &str, z: &[u8]) -> Option<Vec<u8>> {
+    use std::io::Read;
+    let mut out = Vec::new();
+    match enc {
+        "gzip" => {
+            let mut rest: &[u8] = z;
+            {
+                let mut d = flate2::bufread::GzDecoder::new(&mut rest);
+                d.read_to_end(&mut out).ok()?;
+            }
+            if !rest.is_empty() {
+                return None;
+            }
+            Some(out)
+        }
+        "deflate" => {
+            let mut rest: &[u8] = z;
+            {
+                let mut d = flate2::bufread::ZlibDecoder::new(&mut rest);
+                d.read_to_end(&mut out).ok()?;
+                if d.total_in() as usize != z.len() {
+                    return None;
+                }
+            }
+            Some(out)
+        }
+        "br" => {
+            let mut d = brotli::Decompressor::new(z, 4096);
+            d.read_to_end(&mut out).ok()?;
+            Some(out)
+        }
+        _ => None,
+    }
+}
+
+/// What `DecodeFilterBody::filter` returns for each chunk and `end()` at the end (a replica of
+/// src/filter/encoding/decode.rs used only to locate the flush points in the plain body).
+/// Err(k) = the decoder failed at chunk k (chunks.len() = in end).
+pub fn decoder_outputs(enc: &str, chunks: &[Vec<u8>]) -> Result<(Vec<Vec<u8>>, Vec<u8>), usize> {
+    use std::io::Write;
+    let mut outs = Vec::new();
+    macro_rules! drive {
+        ($d:expr, $finish:expr) => {{
+            let mut d = $d;
+            for (k, c) in chunks.iter().enumerate() {
+                if d.write_all(c).is_err() || d.flush().is_err() {
+                    return Err(k);
+                }
+                let mut buf = Vec::new();
+                std::mem::swap(&mut buf, d.get_mut());
+                outs.push(buf);
+            }
+            let end: Vec<u8> = match $finish(d) {
+                Some(v) => v,
+                None => return Err(chunks.len()),
+            };
+            Ok((outs, end))
+        }};
+    }
+    match enc {
+        "gzip" => drive!(flate2::write::GzDecoder::new(Vec::new()), |mut d: flate2::write::GzDecoder<Vec<u8>>| {
+            if d.try_finish().is_err() {
+                return None;
+            }
+            d.finish().ok()
+        }),
+        "deflate" => drive!(flate2::write::ZlibDecoder::new(Vec::new()), |mut d: flate2::write::ZlibDecoder<Vec<u8>>| {
+            if d.try_finish().is_err() {
+                return None;
+            }
+            d.finish().ok()
+        }),
+        "br" => drive!(brotli::DecompressorWriter::new(Vec::new(), 4096), |d: brotli::DecompressorWriter<Vec<u8>>| {
+            match d.into_inner() {
+                Ok(b) => Some(b),
+                Err(b) => Some(b),
+            }
+        }),
+        _ => Err(0),
+    }
+}
+
+/// cut positions of the plain body induced by the decoder outputs (all of them, empty outputs included)
+pub fn flush_cuts(outs: &[Vec<u8>]) -> Vec<usize> {
+    let mut p = 0;
+    let mut cuts = Vec::new();
+    for o in outs {
+        p += o.len();
+        cuts.push(p);
+    }
+    cuts
+}
